@@ -24,7 +24,8 @@ pub enum Strat {
 pub struct PrattOp {
     pub fix: String,   // "prefix" | "postfix" | "infixl" | "infixr"
     pub bp: u16,
-    pub sym: char,
+    /// the operator's own parser
+    pub g: G,
 }
 
 #[derive(Clone, Debug)]
@@ -256,13 +257,17 @@ impl G {
                     .iter()
                     .map(|o| {
                         let o = o.as_array().unwrap();
-                        PrattOp {
+                        Ok(PrattOp {
                             fix: o[0].as_str().unwrap().to_string(),
                             bp: o[1].as_u64().unwrap() as u16,
-                            sym: tok_to_char(o[2].as_str().unwrap()),
-                        }
+                            // the operator parser: a grammar; a bare string s stands for just(s)
+                            g: match o[2].as_str() {
+                                Some(sy) => G::Just(vec![tok_to_char(sy)]),
+                                None => G::from_json(&o[2])?,
+                            },
+                        })
                     })
-                    .collect();
+                    .collect::<Result<Vec<_>, String>>()?;
                 G::Pratt(bx(&a[1])?, ops, st(&a[3]))
             }
             _ => return Err(format!("unknown grammar op {op}")),
